@@ -64,7 +64,8 @@ def scalar_domain(t, node, env, small=False):
         d = tuple(struct_domain(t.name, env))
     if small and d is not None and len(d) > 2:
         # strings keep a y-diaeresis value (visible to sanitisation and chunk framing) AND a value without one
-        d = (d[0], d[-2], d[-1]) if t.kind == "string" and d is STR_DOM else (d[0], d[-1])
+        # (and the plain value must round-trip losslessly everywhere, or C01 is left with the empty string only)
+        d = (d[0], d[1], d[-1]) if t.kind == "string" and d is STR_DOM else (d[0], d[-1])
     return d
 
 
